@@ -220,6 +220,10 @@ Fixpoint step2 (once : bool) (d : list quad) (m : b2q_t) : res b2q_t :=
       end
   end.
 
+(* which version of the crate: [v_once] = a quad is referenced once per blank node (repair of
+   DESIGN.md section 4 row 27), [v_prune] = smaller_path follows RDFC-1.0 (second repair) *)
+Record variant := mkVar { v_once : bool; v_prune : bool }.
+
 Section Algo.
 Variable H : str -> str.
 
@@ -242,15 +246,25 @@ Record state := mkState {
   st_b2h : list (str * str);          (* memoised first-degree hashes *)
   st_canon : issuer;                  (* canonical issuer (prefix c14n) *)
   st_df1000 : option N;               (* depth_factor * 1000; None = no limit (not in the crate) *)
-  st_plimit : option N                (* permutation_limit; None = no limit (not in the crate) *)
+  st_plimit : option N;               (* permutation_limit; None = no limit (not in the crate) *)
+  st_prune : bool                     (* model only: which smaller_path (true = repaired) *)
 }.
 
-Definition smaller_path (p1 p2 : str) : bool :=
+(* smaller_path(chosen_path, path): "abandon this permutation".  [smaller_path_prefix] is the
+   function before the repair (a shorter chosen path always wins, although a longer path can be
+   smaller in code point order: _:b10 < _:b9); [smaller_path] is the repaired one, the rule of
+   RDFC-1.0 steps 5.4.4.3 / 5.4.5.5: the path is at least as long as the chosen path and greater
+   than it in code point order. *)
+Definition smaller_path_prefix (p1 p2 : str) : bool :=
   match Nat.compare (length p1) (length p2) with
   | Lt => true
   | Eq => str_ltb p1 p2
   | Gt => false
   end.
+Definition smaller_path (p1 p2 : str) : bool :=
+  (length p1 <=? length p2)%nat && str_ltb p1 p2.
+Definition prune_rule (repaired : bool) : str -> str -> bool :=
+  if repaired then smaller_path else smaller_path_prefix.
 
 (* hash_related_bnode *)
 Definition hash_related (st : state) (related : str) (q : quad) (iss : issuer) (pos : N)
@@ -335,7 +349,7 @@ Fixpoint perm_rec (chosen : str) (depth : N) (ic : issuer) (path : str) (rl : li
       | Ok (h, ic2) =>
           let '(_, id, _) := issue s_b ic r in
           let path' := path ++ s_bn ++ id ++ [60] ++ h ++ [62] in
-          if negb (is_nil chosen) && smaller_path chosen path' then Ok None
+          if negb (is_nil chosen) && prune_rule (st_prune st) chosen path' then Ok None
           else perm_rec chosen depth ic2 path' rl'
       end
   end.
@@ -345,7 +359,7 @@ Definition one_perm (base : issuer) (depth : N) (acc : str * option issuer) (p :
   : res (str * option issuer) :=
   let '(chosen, _) := acc in
   let '(ic, path, rl) := perm_ids (st_canon st) base [] [] p in
-  if negb (is_nil chosen) && smaller_path chosen path then Ok acc
+  if negb (is_nil chosen) && prune_rule (st_prune st) chosen path then Ok acc
   else match perm_rec chosen depth ic path rl with
        | Err e => Err e
        | Ok None => Ok acc
@@ -446,7 +460,7 @@ Definition path_leb (a b : str * issuer) : bool := str_leb (fst a) (fst b).
 Definition step5_issue (canon : issuer) (paths : list (str * issuer)) : issuer :=
   fold_left (fun c r => issue_all s_c14n c (map fst (snd r))) (sort_by path_leb paths) canon.
 Definition with_canon (st : state) (c : issuer) : state :=
-  mkState (st_b2q st) (st_b2h st) c (st_df1000 st) (st_plimit st).
+  mkState (st_b2q st) (st_b2h st) c (st_df1000 st) (st_plimit st) (st_prune st).
 Fixpoint step5 (fuel : nat) (st : state) (h2b : list (str * list str)) : res issuer :=
   match h2b with
   | [] => Ok (st_canon st)
@@ -482,15 +496,16 @@ Fixpoint relabel_qs (issued : issuer) (d : list quad) : res (list quad) :=
       end
   end.
 
-(* relabel_with: (relabelled quads in input order, issued identifiers in issue order) *)
-Definition relabel_with (once : bool) (fuel : nat) (df1000 plimit : option N) (d : list quad)
+(* relabel_with: (relabelled quads in input order, issued identifiers in issue order).
+   [v] selects the code: both repairs (impl_model below) or the code before them. *)
+Definition relabel_with (v : variant) (fuel : nat) (df1000 plimit : option N) (d : list quad)
   : res (list quad * issuer) :=
-  match step2 once d [] with
+  match step2 (v_once v) d [] with
   | Err e => Err e
   | Ok b2q =>
       let b2h := step3_b2h b2q in
       let (h2b, canon) := step4 (step3_h2b b2h) [] in
-      match step5 fuel (mkState b2q b2h canon df1000 plimit) h2b with
+      match step5 fuel (mkState b2q b2h canon df1000 plimit (v_prune v)) h2b with
       | Err e => Err e
       | Ok issued =>
           match relabel_qs issued d with
@@ -502,17 +517,17 @@ Definition relabel_with (once : bool) (fuel : nat) (df1000 plimit : option N) (d
 
 (* normalize_with: the bytes written *)
 Definition serialize (qs : list quad) : str := concat (map nq_line (sort_by quad_leb qs)).
-Definition normalize_with (once : bool) (fuel : nat) (df1000 plimit : option N) (d : list quad)
+Definition normalize_with (v : variant) (fuel : nat) (df1000 plimit : option N) (d : list quad)
   : res (str * issuer) :=
-  match relabel_with once fuel df1000 plimit d with
+  match relabel_with v fuel df1000 plimit d with
   | Err e => Err e
   | Ok (qs, issued) => Ok (serialize qs, issued)
   end.
 End Algo.
 
-(* the implementation after the repair of DESIGN.md section 4 row 27, and before it *)
-Definition impl_model (H : str -> str) := normalize_with H true.
-Definition impl_model_prefix (H : str -> str) := normalize_with H false.
+(* the implementation after the two repairs (build/proposed/C06.diff), and before them *)
+Definition impl_model (H : str -> str) := normalize_with H (mkVar true true).
+Definition impl_model_prefix (H : str -> str) := normalize_with H (mkVar false false).
 
 (* ---------- vocabulary of the statements ---------- *)
 Definition comp_label (c : N * term) : list str :=
@@ -566,11 +581,12 @@ Definition outcome_eqb (r : res (str * issuer)) (code : N) (bytes : str) (idmap 
   | Err e => err_code e =? code
   end.
 Definition fuel_for (d : list quad) : nat := S (S (3 * length d)).
-(* impl vs model: [once] selects the repaired or the pre-repair model (the latter only for
-   replaying the defect) *)
-Definition impl_ok (once : bool) (tbl : list (str * str)) (df1000 plimit : N) (d : list quad)
+(* impl vs model: [repaired] selects the repaired or the pre-repair model (the latter only for
+   replaying the defects) *)
+Definition impl_ok (repaired : bool) (tbl : list (str * str)) (df1000 plimit : N) (d : list quad)
            (code : N) (bytes : str) (idmap : list (str * str)) : bool :=
-  outcome_eqb (normalize_with (tbl_H tbl) once (fuel_for d) (Some df1000) (Some plimit) d)
+  outcome_eqb (normalize_with (tbl_H tbl) (mkVar repaired repaired) (fuel_for d)
+                              (Some df1000) (Some plimit) d)
               code bytes idmap.
 
 (* strings in generated case files are packed three code points (21 bits each) per primitive
